@@ -171,6 +171,31 @@ pub fn gen_case(prop: &str, seed: u64) -> Case {
             case.steps = g.history();
             case.params.insert("avoid".into(), avoid.on as i64);
         }
+        "C15" => {
+            let mut p = Profile::base();
+            p.max_steps = 10;
+            p.max_tables = 3;
+            p.w_create = 10;
+            p.w_drop = 0;
+            p.w_insert = 40;
+            p.w_delete = 6;
+            p.w_insert_select = 2;
+            p.w_select = 0;
+            p.w_advance = 4;
+            p.max_rows_per_insert = 30;
+            p.low_card_pct = 25;
+            if krng.chance(2, 3) {
+                knobs.rowset_size = *krng.pick(&[128usize, 256, 1024, 4096]);
+            }
+            if krng.chance(1, 2) {
+                knobs.block_size = *krng.pick(&[32usize, 64, 128, 256]);
+            }
+            let mut g = Gen::new(&mut wrng, p);
+            case.steps = g.history();
+            let tests = g.fault_tests();
+            case.sessions = vec![tests];
+            case.params.insert("avoid".into(), avoid.on as i64);
+        }
         _ => {}
     }
     // first keys are "required by the range-filter scan rule"; only C05, whose quantifier names
